@@ -40,7 +40,8 @@ AXES = {
            "lens-mie", "auto"],
     "det": ["g3x3", "g1x1", "g1x4", "g4x5a", "g3x3o", "p3", "p4z0", "g2ch",
             "g2chr", "g3x2z2"],
-    "pol": [(1, 0), (0, 1), (1, 1), (0.6, -0.8), (3, 4), (1, 1, 0)],
+    "pol": [(1, 0), (0, 1), (1, 1), (0.6, -0.8), (3, 4), (1, 1, 0),
+            (0.70711, 0.70711), (-0.5, -0.86603)],
     "alpha": [1.0, 0.0, 0.5, 1.7, -1.0],
     # args: optics passed as arguments; detector: optics already on the
     # detector; override: the detector carries OTHER (stale) optics and the
@@ -114,6 +115,9 @@ def _run_input(case, ck):
     from holopy.scattering import calc_holo, calc_field, calc_intensity
     v = pick(AXES, case["vec"])
     det = _detector(v["det"])
+    # metadata that is not optics (acquisition notes etc.) travels along
+    det.attrs["acquisition"] = "cam-7"
+    det.attrs["exposure_ms"] = 12.5
     scat, theory = H.mk(v["st"])
     pol, alpha = v["pol"], v["alpha"]
     wl = H.WL
@@ -203,6 +207,10 @@ def _run_input(case, ck):
     # (e) metadata = detector attrs updated with the optics
     for nm, res in (("holo", holo), ("field", field), ("intensity", inten)):
         a = res.attrs
+        ck.true("attrs-other", a.get("acquisition") == "cam-7" and
+                a.get("exposure_ms") == 12.5, "%s: the detector's other "
+                "metadata was not carried over (attrs %r)" %
+                (nm, sorted(map(str, a))))
         ck.true("attrs-medium", a.get("medium_index") == H.NMED,
                 "%s: medium_index attr %r" % (nm, a.get("medium_index")))
         p = np.asarray(getattr(a.get("illum_polarization"), "values",
